@@ -15,6 +15,7 @@ package main
 //  (6 sec nsec ms same)                                   NewMetricWithTimestamp
 //  (7 vt value exs impl)                                  NewMetricWithExemplars over a const metric
 //  (9 inner-ts layers impl-ts same)                       stacks of timestamp / exemplar wrappers, custom inner metrics
+//  (10 0 dspec impl) (10 1 exs code)                      name decisions under model.LegacyValidation
 //  (8 count buckets exs impl)                             NewMetricWithExemplars over a const (native) histogram
 // dspec = (fq help vars consts lvs); impl = (0 errcode) | (1 observables...)
 
@@ -30,6 +31,7 @@ import (
 
 	"github.com/prometheus/client_golang/prometheus"
 	dto "github.com/prometheus/client_model/go"
+	"github.com/prometheus/common/model"
 	"google.golang.org/protobuf/proto"
 
 	"verifharness/internal/cli"
@@ -1085,6 +1087,98 @@ func streamTS(c *cli.Ctx, r *emit.Rng) error {
 	return w.Flush()
 }
 
+// ---------------------------------------------------------------- model.LegacyValidation
+var legacyNames = []string{"a", "abc", "x_1", "_x", "A9", "le", "my.label", "a-b", "größe", "a:b", "0abc", "a b", "", "__x", "x__y",
+	"日本", "a\xff", "Z", "job", "a.b.c", "name:", "é", "_", "a1_b2", "1", "x-", "\U0001F600"}
+var legacyMetricNames = []string{"m", "m_total", "ns:sub:m", ":m", "my.metric", "1m", "größe_total", "m-1", "m 1", "M9", "_m", "", "m.", "a:b:c", "é"}
+
+// (10 0 dspec impl) and (10 1 exs code): the label / metric name decisions after the process has switched
+// prometheus/common to model.LegacyValidation; the scheme is restored before any other stream runs
+func streamLegacy(c *cli.Ctx, r *emit.Rng) error {
+	old := model.NameValidationScheme
+	model.NameValidationScheme = model.LegacyValidation
+	defer func() { model.NameValidationScheme = old }()
+	w := emit.NewWriter(c.Out, "C14", "legacy-names")
+	pick := func(pool []string) string { return pool[r.Intn(len(pool))] }
+	for i := 0; i < 300*c.Scale; i++ {
+		d := &dspec{consts: map[string]string{}}
+		d.fq = pick(legacyMetricNames)
+		if r.Chance(1, 2) {
+			d.fq = "m_total"
+		}
+		d.help = "h"
+		for k := r.Intn(3); k > 0; k-- {
+			d.consts[pick(legacyNames)] = genValue(r, 3)
+		}
+		for k := r.Intn(3); k > 0; k-- {
+			n := pick(legacyNames)
+			if _, dup := d.consts[n]; dup && !r.Chance(1, 6) {
+				continue
+			}
+			d.vars = append(d.vars, n)
+		}
+		d.cOrder = mapOrder(r, d.consts)
+		for range d.vars {
+			d.lvs = append(d.lvs, genValue(r, 0))
+		}
+		m, err := prometheus.NewConstMetric(d.desc(), prometheus.GaugeValue, 0, d.lvs...)
+		var impl string
+		tags := []string{}
+		if err != nil {
+			impl = emit.C(0, emit.I(errCode(err)))
+			tags = append(tags, "desc:"+errTag(errCode(err)))
+		} else {
+			var pb dto.Metric
+			m.Write(&pb)
+			impl = emit.C(1, lpS(pb.Label))
+			tags = append(tags, "desc:result:ok")
+		}
+		utf8Only := false
+		for _, n := range append(append([]string{}, d.vars...), keysOf(d.consts)...) {
+			if n == "my.label" || n == "a-b" || n == "größe" || n == "a.b.c" || n == "é" || n == "日本" || n == "x-" {
+				utf8Only = true
+			}
+		}
+		if utf8Only {
+			tags = append(tags, "label-name:utf8-valid-but-not-legacy")
+		}
+		w.Add(emit.Tup("10", "0", d.term(), impl), len(d.vars)+len(d.consts) >= 1, tags...)
+	}
+	dc := prometheus.NewDesc("c_total", "h", nil, nil)
+	for i := 0; i < 200*c.Scale; i++ {
+		n := 1 + r.Intn(3)
+		var exs []exIn
+		for k := 0; k < n; k++ {
+			e := exIn{v: float64(k), labels: map[string]string{}}
+			for q := r.Intn(3); q > 0; q-- {
+				e.labels[pick(legacyNames)] = goodValues[r.Intn(len(goodValues))]
+			}
+			ks := keysOf(e.labels)
+			sort.Strings(ks)
+			for _, kk := range ks {
+				e.order = append(e.order, kv{kk, e.labels[kk]})
+			}
+			exs = append(exs, e)
+		}
+		_, err := prometheus.NewMetricWithExemplars(prometheus.MustNewConstMetric(dc, prometheus.CounterValue, 1), toExemplars(exs, r)...)
+		code := 0
+		if err != nil {
+			code = errCode(err)
+		}
+		w.Add(emit.Tup("10", "1", exInS(exs), emit.I(code)), true, fmt.Sprintf("exemplar:code%d", code))
+	}
+	return w.Flush()
+}
+
+func keysOf(m map[string]string) []string {
+	ks := make([]string, 0, len(m))
+	for k := range m {
+		ks = append(ks, k)
+	}
+	sort.Strings(ks)
+	return ks
+}
+
 // ---------------------------------------------------------------- stacks of wrappers
 // a user-supplied Metric whose Write sets a timestamp of its own (mode 1) or resets the whole message and
 // fills every field itself, timestamp included (mode 2)
@@ -1571,6 +1665,9 @@ func runC14(c *cli.Ctx) error {
 		}
 	}
 	if err := streamNested(c, r.Fork()); err != nil {
+		return err
+	}
+	if err := streamLegacy(c, r.Fork()); err != nil {
 		return err
 	}
 	// count = 2^64 + (negative total): validateCount compares int64(count) with the int64 total
